@@ -174,6 +174,16 @@ func Run(r *core.Run) {
 			}
 		}
 	}
+	// other full lengths than the curve's 32 bytes (a 20-byte digest signed with fullBytesLen 20; 1; 31): every
+	// digest of the alphabet that fits, on the cheapest key
+	for _, fl := range []int{1, 20, 31} {
+		for _, d := range ds {
+			if d.m.BitLen() <= 8*fl {
+				cases = append(cases, fc{kc: kcs[0], sub: []int{0, 1}, d: d, full: fl, order: orderFor(ci, 2), label: fmt.Sprintf("fullBytesLen=%d", fl)})
+				ci++
+			}
+		}
+	}
 	// nonce classes on the cheapest key: one seed per class of the canonical-form branches
 	{
 		kc := kcs[0]
@@ -366,5 +376,5 @@ func Run(r *core.Run) {
 	r.Set("traces_validated_against_impl", traces)
 	r.Set("schedule_part", "joint mode (every transition is a complete re-execution of the real network, so every explored trace is validated against the implementation): all schedules for 2 signers; FIFO [thorough: + every 1-deviation run] for 3 signers")
 	r.Assume("independent verifiers: reference textbook ECDSA over the reference curve, and btcec's verifier; recovery per SEC1 4.1.6 with the reference curve")
-	r.Assume("admissible fullBytesLen: absent or 32 (a digest is at most 32 bytes on secp256k1)")
+	r.Assume("fullBytesLen: absent, 32 in the full product; 1, 20 and 31 with every digest of the alphabet that fits into that many bytes; lengths above 32 are not admissible (standard ECDSA takes the leftmost 32 bytes of a longer digest, so a 33-byte echo is another message)")
 }
